@@ -86,7 +86,7 @@ def run(res):
                     "sample_rate_denominator": cfg.d, "is_complex": int(cfg.is_complex), "num_subchannels": cfg.nsub,
                     "is_continuous": int(cfg.cont), "H5Tget_size": cfg.size,
                     "H5Tget_order": 1 if cfg.order == ">" else 0, "H5Tget_class": 1 if cfg.kind == "f" else 0,
-                    "epoch": "1970-01-01T00:00:00Z", "uuid_str": "verif-uuid"}
+                    "epoch": "1970-01-01T00:00:00Z", "uuid_str": "verif-12345678-90ab-cdef-1234-567890abcdef-session-A"}
             for k, v in want.items():
                 if norm(a.get(k)) != v:
                     res.violation("attr-mismatch:" + k, "embedded attribute %s does not repeat the channel property" % k,
